@@ -497,5 +497,5 @@ Definition ast_of (fa fp : bool) (l : layout) (ag : agram) : gast :=
     (rules_eff fa fp l 0 (rules_off l ag) (actiont_of (gat_of l ag)) (ag_rules ag)
                (decls_eff l 0 (decls_off l) 0 (ag_decls ag) ast_new)).
 
-Definition warnings_of (fa fp : bool) (l : layout) (ag : agram) : outcome (list (wkind * span)) :=
-  warnings (ast_of fa fp l ag).
+Definition warnings_of (fa fp fu : bool) (l : layout) (ag : agram) : outcome (list (wkind * span)) :=
+  warnings fu (ast_of fa fp l ag).
